@@ -42,6 +42,9 @@ func (e *Evaluator) GetConsumerStatus(request *protocol.EvaluatorRequest) {
 	e.m.VerifGetConsumerStatus(request)
 }
 
+// Request hands the request to the module on its own request channel, served by its real main loop.
+func (e *Evaluator) Request(request *protocol.EvaluatorRequest) { e.m.VerifRequest(request) }
+
 // Evaluate is evaluateConsumerStatus.
 func (e *Evaluator) Evaluate(clusterAndConsumer string) (interface{}, error) {
 	return e.m.VerifEvaluateConsumerStatus(clusterAndConsumer)
